@@ -15,7 +15,7 @@ RULE = (
     "Python operation on the operands' cell lists (plain str -> unformatted cells), len == number of cells, .s == str "
     "operation on .s. Non-trivial: bounds on different runs, any negative bound, or an operand with an empty run."
     ' Operands also carry a history (derived from observed parents, caches and the divides index filled) and come in large sizes (for long strings the bound grid is all run boundaries +-1, the ends and a spread of interior points); plain-str operands may contain a bare ESC or U+009B; repeat counts up to 100, joins of up to 40 items.'
-    " Operands also as instances of a str subclass (one overriding __str__) and of a FmtStr subclass with its own constructor; the result of an earlier + (escape-carrying plain-str operands included) as operand of *, slicing, + and join; complete enumeration of join (<=3 items, 4 separators) and + over degenerate operands (no runs, one empty run, '', one character)."
+    " Operands also as instances of a str subclass (one overriding __str__) and of a FmtStr subclass with its own constructor; the result of an earlier + (escape-carrying plain-str operands included) as operand of *, slicing, + and join; every +, * and join is made a second time with the same operand objects and judged again; complete enumeration of join (<=3 items, 4 separators) and + over degenerate operands (no runs, one empty run, '', one character)."
 )
 ASSUMPTIONS = [
     "for integer indices where str raises IndexError the only demand is that no non-empty result is returned",
@@ -51,14 +51,18 @@ def check_value(res, what, got, expected, **ctx):
     c, e = call(cells, got)
     if e is not None:
         res.viol(what + "_unreadable", error=exc_str(e), **ctx)
-        return
+        return False
     if c != expected:
         res.viol(what + "_cells_differ", got=show(c), expected=show(expected), **ctx)
-        return
+        return False
+    ok = True
     if len(got) != len(expected):
         res.viol(what + "_len_wrong", got=len(got), expected=len(expected), **ctx)
+        ok = False
     if got.s != text_of(expected):
         res.viol(what + "_s_wrong", got=got.s, expected=text_of(expected), **ctx)
+        ok = False
+    return ok
 
 
 def run_case(case):
@@ -140,21 +144,26 @@ def run_case(case):
         if isinstance(l, str) and isinstance(r, str):
             return res
         res.label("add_str_left" if isinstance(l, str) else "add_str_right" if isinstance(r, str) else "add_fmt_fmt")
-        got, e = call(lambda: l + r)
-        if e is not None:
-            res.viol("add_raised", error=exc_str(e), case=case)
-        else:
-            check_value(res, "add", got, lc + rc, case=case)
+        # every operation is made twice with the same operand objects: the second result is judged like the first
+        for attempt in ("first", "same_operands_again"):
+            got, e = call(lambda: l + r)
+            if e is not None:
+                res.viol("add_raised", error=exc_str(e), attempt=attempt, case=case)
+                break
+            if not check_value(res, "add", got, lc + rc, attempt=attempt, case=case):
+                break
         res.nontrivial = bool(lc and rc)
     elif op == "mul":
         f, c = operand(case["value"])
         n = case["n"]
-        got, e = call(lambda: f * n)
         res.label("mul_%d" % min(n, 2))
-        if e is not None:
-            res.viol("mul_raised", error=exc_str(e), case=case)
-        else:
-            check_value(res, "mul", got, c * n, case=case)
+        for attempt in ("first", "same_operands_again"):
+            got, e = call(lambda: f * n)
+            if e is not None:
+                res.viol("mul_raised", error=exc_str(e), attempt=attempt, case=case)
+                break
+            if not check_value(res, "mul", got, c * n, attempt=attempt, case=case):
+                break
         res.nontrivial = bool(c) and n >= 2
     elif op == "join":
         sep, sc = operand(case["sep"])
@@ -173,8 +182,12 @@ def run_case(case):
         res.label("join_%d" % min(len(items), 3))
         if e is not None:
             res.viol("join_raised", error=exc_str(e), case=case)
-        else:
-            check_value(res, "join", got, exp, case=case)
+        elif check_value(res, "join", got, exp, case=case):
+            got2, e2 = call(lambda: sep.join(list(vals)))
+            if e2 is not None:
+                res.viol("join_raised", error=exc_str(e2), attempt="same_operands_again", case=case)
+            else:
+                check_value(res, "join", got2, exp, attempt="same_operands_again", case=case)
         res.nontrivial = len(items) >= 2 and bool(sc)
     return res
 
